@@ -500,6 +500,34 @@ theorem finite_schedule_race_completes (finite : Nat → Bool) (sched : List All
   have := (maximal_run_is_complete _ hwf hce s' n h hmax).2
   simpa [cfgOf] using this
 
+open RaceOfAlloc in
+/-- **schedule_race_completes** — the same for schedules with completed-by: named completing tasks end by themselves
+    and every element can end (`ElemCanEnd`: all its tasks finite, or it fits into one allocation column and has a named
+    completing task / is completed by any of its tasks with a finite one), the clients laid out over the hosts' workers
+    by the model of `calculate_worker_assignments`. -/
+theorem schedule_race_completes (finite : Nat → Bool) (sched : List Alloc.Element) (hosts : List Alloc.Host)
+    (hne : hosts ≠ []) (hc : ∀ h ∈ hosts, h.cores > 0)
+    (hcp : ∀ (e : Nat) (el : Alloc.Element) (s : Alloc.Sub), sched[e]? = some el → s ∈ el.tasks → s.completesParent = true →
+      finite s.id = true)
+    (hel : ∀ (e : Nat) (el : Alloc.Element), sched[e]? = some el → ElemCanEnd finite (Alloc.maxClients sched) el)
+    (s' : State) (n : Nat)
+    (h : Run (cfgOf finite sched (workersOf hosts (Alloc.maxClients sched)))
+      (init (cfgOf finite sched (workersOf hosts (Alloc.maxClients sched)))) n s')
+    (hmax : ∀ e s'', step (cfgOf finite sched (workersOf hosts (Alloc.maxClients sched))) s' e = some s'' → ¬ Changed s' s'') :
+    s'.d2r = List.replicate sched.length MsgDR.taskFinished ++ [MsgDR.benchComplete] := by
+  have hcov := fun r hr => workersOf_cover hosts (Alloc.maxClients sched) hne hc r hr
+  have hwne : workersOf hosts (Alloc.maxClients sched) ≠ [] := by
+    obtain ⟨w, rows, hw, _⟩ := hcov 0 (Alloc.maxClients_pos sched)
+    intro hnil; rw [hnil] at hw; simp at hw
+  have hwf := cfgOf_wf finite sched _ hwne
+  have hce := cfgOf_canEnd finite sched _ hcov hcp hel
+  have := (maximal_run_is_complete _ hwf hce s' n h hmax).2
+  simpa [cfgOf] using this
+
+/-- non-vacuity: an eternal task next to a named completing task that ends by itself, in one column of three clients -/
+example : RaceOfAlloc.ElemCanEnd (fun id => id == 1) 3 ⟨none, [⟨0, 1, false, false⟩, ⟨1, 1, true, false⟩]⟩ :=
+  Or.inr (Or.inl ⟨by decide, 1, ⟨1, 1, true, false⟩, 0, by decide, rfl⟩)
+
 /-- the measure of the example configuration bounds the state-changing steps of every run of it by 26; the complete
     run above has 17 events -/
 example : pot exCfg (init exCfg) = 26 ∧ exRun.length = 17 := by decide
